@@ -183,9 +183,18 @@ Lemma handover_inv e ent todo : forall s keep s' keep',
 Proof.
   induction todo as [|x tl IH]; intros s keep s' keep' HI; cbn [handover].
   - intros H; injection H as <- <-. exact HI.
-  - destruct (register_core e s ent x) as [oc s1] eqn:Hc.
+  - destruct (register_core e s ent (snd x)) as [oc s1] eqn:Hc.
     pose proof (register_core_inv _ _ _ _ _ _ HI Hc) as HI1.
     destruct (N.eqb oc REGISTERED); intros H; eapply IH; eauto.
+Qed.
+
+Lemma batch_inv e l : forall s b s', Inv e s -> batch e s l = (b, s') -> Inv e s'.
+Proof.
+  induction l as [|x tl IH]; intros s b s' HI; cbn [batch].
+  - intros H; injection H as <- <-. exact HI.
+  - destruct (register_buffered e s (fst x) (snd x) true) as [oc s1] eqn:Hc.
+    destruct (batch e s1 tl) as [b2 s2] eqn:Hb.
+    intros H; injection H as <- <-. eapply IH; [|exact Hb]. eapply register_buffered_inv; eauto.
 Qed.
 
 Lemma find_open_app_none s o :
@@ -196,7 +205,7 @@ Qed.
 
 Lemma step_inv e s v o s' : Inv e s -> step e s v = (o, s') -> Inv e s'.
 Proof.
-  intros HI. destruct v as [p ent claimed x | ent msg | ent]; cbn [step].
+  intros HI. destruct v as [p ent claimed x | l | ent msg | ent]; cbn [step].
   - destruct p.
     + destruct (authenticate e claimed x).
       * destruct (register_buffered e s ent x true) as [oc s1] eqn:H1. intros H; injection H as <- <-.
@@ -206,6 +215,7 @@ Proof.
       eapply register_buffered_inv; eauto.
     + destruct (register_buffered e s ent x true) as [oc s1] eqn:H1. intros H; injection H as <- <-.
       eapply register_buffered_inv; eauto.
+  - destruct (batch e s l) as [b s1] eqn:Hb. intros H; injection H as <- <-. eapply batch_inv; eauto.
   - destruct (find_open s ent) eqn:Ho.
     + intros H; injection H as <- <-. exact HI.
     + set (s1 := {| st_open := st_open s ++ [{| o_ent := ent; o_msg := msg; o_certified := false |}];
@@ -214,7 +224,7 @@ Proof.
       { destruct HI as [HR HC]. split.
         - intros r Hr. eapply row_ok_stable; [apply find_open_app_none | apply HR; exact Hr].
         - intros c Hc. exact (HC c Hc). }
-      destruct (handover e s1 ent (st_buf s1) []) as [s2 keep] eqn:Hh.
+      destruct (handover e s1 ent (rev (filter (fun b => N.eqb (fst b) (ety ent)) (st_buf s1))) []) as [s2 keep] eqn:Hh.
       intros H; injection H as <- <-.
       eapply Inv_ext; [| | | eapply handover_inv; eauto]; reflexivity.
   - destruct (find_open s ent) as [o0|] eqn:Ho; [|intros H; injection H as <- <-; exact HI].
@@ -244,16 +254,28 @@ Proof.
 Qed.
 
 (* ---------- full statement ---------- *)
+Lemma bound_from e s0 evs os s r :
+  Inv e s0 ->
+  run_from e s0 evs = (os, s) -> In r (st_rows s) ->
+  exists o q, find_open s (r_ent r) = Some o /\
+              find_party (e_cur e) (s_label (r_sig r)) = Some q /\
+              sg_verify (s_sigma (r_sig r)) (p_vk q) (payload (e_cur e) (o_msg o)) = true.
+Proof.
+  intros H0 H Hr. pose proof (run_from_inv e evs s0 os s H0 H) as [HR _].
+  destruct (HR r Hr) as (o & q & Ho & Hq & Hs). exists o, q. repeat split; auto.
+  apply sg_verify_spec. exact Hs.
+Qed.
+
 Lemma bound e evs os s r :
   run_from e st0 evs = (os, s) -> In r (st_rows s) ->
   exists o q, find_open s (r_ent r) = Some o /\
               find_party (e_cur e) (s_label (r_sig r)) = Some q /\
               sg_verify (s_sigma (r_sig r)) (p_vk q) (payload (e_cur e) (o_msg o)) = true.
-Proof.
-  intros H Hr. pose proof (run_from_inv e evs st0 os s (Inv_st0 e) H) as [HR _].
-  destruct (HR r Hr) as (o & q & Ho & Hq & Hs). exists o, q. repeat split; auto.
-  apply sg_verify_spec. exact Hs.
-Qed.
+Proof. apply bound_from, Inv_st0. Qed.
+
+(* after an epoch change the store starts empty whatever the buffer carries over *)
+Lemma Inv_epoch_change e s : Inv e (epoch_change s).
+Proof. split; intros ? []. Qed.
 
 (* distinct keys: a key belongs to one party *)
 Definition keys_distinct (r : reg) : Prop :=
@@ -319,7 +341,7 @@ Lemma handover_keeps e ent todo ent0 l sig : forall s keep s' keep',
 Proof.
   induction todo as [|x tl IH]; intros s keep s' keep' HI; cbn [handover].
   - intros H; injection H as <- <-. auto.
-  - destruct (register_core e s ent x) as [oc s1] eqn:Hc.
+  - destruct (register_core e s ent (snd x)) as [oc s1] eqn:Hc.
     pose proof (register_core_inv _ _ _ _ _ _ HI Hc) as HI1.
     pose proof (register_core_keeps _ _ _ _ _ _ ent0 l sig HI Hc) as Hk.
     destruct (N.eqb oc REGISTERED); intros H Hg; eapply IH; eauto.
@@ -335,11 +357,24 @@ Proof.
   - intros H; injection H as <- <-. eapply register_core_keeps; eauto.
 Qed.
 
+Lemma batch_keeps e l0 ent0 l sig : forall s b s',
+  Inv e s -> batch e s l0 = (b, s') ->
+  get_sigma s ent0 l = Some sig -> get_sigma s' ent0 l = Some sig.
+Proof.
+  induction l0 as [|x tl IH]; intros s b s' HI; cbn [batch].
+  - intros H; injection H as <- <-. auto.
+  - destruct (register_buffered e s (fst x) (snd x) true) as [oc s1] eqn:Hc.
+    destruct (batch e s1 tl) as [b2 s2] eqn:Hb.
+    intros H Hg; injection H as <- <-. eapply IH; [|exact Hb|].
+    + eapply register_buffered_inv; eauto.
+    + eapply register_buffered_keeps; eauto.
+Qed.
+
 Lemma step_keeps e s v o s' ent0 l sig :
   Inv e s -> step e s v = (o, s') ->
   get_sigma s ent0 l = Some sig -> get_sigma s' ent0 l = Some sig.
 Proof.
-  intros HI. destruct v as [p ent claimed x | ent msg | ent]; cbn [step].
+  intros HI. destruct v as [p ent claimed x | l0 | ent msg | ent]; cbn [step].
   - destruct p.
     + destruct (authenticate e claimed x).
       * destruct (register_buffered e s ent x true) as [oc s1] eqn:H1. intros H; injection H as <- <-.
@@ -349,6 +384,7 @@ Proof.
       eapply register_buffered_keeps; eauto.
     + destruct (register_buffered e s ent x true) as [oc s1] eqn:H1. intros H; injection H as <- <-.
       eapply register_buffered_keeps; eauto.
+  - destruct (batch e s l0) as [b s1] eqn:Hb. intros H; injection H as <- <-. eapply batch_keeps; eauto.
   - destruct (find_open s ent) eqn:Ho.
     + intros H; injection H as <- <-. auto.
     + set (s1 := {| st_open := st_open s ++ [{| o_ent := ent; o_msg := msg; o_certified := false |}];
@@ -357,7 +393,7 @@ Proof.
       { destruct HI as [HR HC]. split.
         - intros r Hr. eapply row_ok_stable; [apply find_open_app_none | apply HR; exact Hr].
         - intros c Hc. exact (HC c Hc). }
-      destruct (handover e s1 ent (st_buf s1) []) as [s2 keep] eqn:Hh.
+      destruct (handover e s1 ent (rev (filter (fun b => N.eqb (fst b) (ety ent)) (st_buf s1))) []) as [s2 keep] eqn:Hh.
       intros H; injection H as <- <-. intros Hg.
       change (get_sigma s2 ent0 l = Some sig).
       eapply handover_keeps; [exact HI1 | exact Hh | exact Hg].
@@ -387,18 +423,26 @@ Proof.
 Qed.
 
 (* ---------- certificate signers ---------- *)
-Lemma signers_signed e evs os s c l :
-  run_from e st0 evs = (os, s) -> In c (st_certs s) -> In l (c_signers c) ->
+Lemma signers_signed_from e s0 evs os s c l :
+  Inv e s0 ->
+  run_from e s0 evs = (os, s) -> In c (st_certs s) -> In l (c_signers c) ->
   exists r o q, In r (st_rows s) /\ r_ent r = c_ent c /\ s_label (r_sig r) = l /\
                 find_open s (c_ent c) = Some o /\ find_party (e_cur e) l = Some q /\
                 sg_verify (s_sigma (r_sig r)) (p_vk q) (payload (e_cur e) (o_msg o)) = true.
 Proof.
-  intros H Hc Hl. pose proof (run_from_inv e evs st0 os s (Inv_st0 e) H) as [HR HC].
+  intros H0 H Hc Hl. pose proof (run_from_inv e evs s0 os s H0 H) as [HR HC].
   destruct (HC c Hc l Hl) as (r & Hr & He & Hlab).
   destruct (HR r Hr) as (o & q & Ho & Hq & Hs).
   exists r, o, q. rewrite He in Ho. rewrite Hlab in Hq. repeat split; auto.
   apply sg_verify_spec. exact Hs.
 Qed.
+
+Lemma signers_signed e evs os s c l :
+  run_from e st0 evs = (os, s) -> In c (st_certs s) -> In l (c_signers c) ->
+  exists r o q, In r (st_rows s) /\ r_ent r = c_ent c /\ s_label (r_sig r) = l /\
+                find_open s (c_ent c) = Some o /\ find_party (e_cur e) l = Some q /\
+                sg_verify (s_sigma (r_sig r)) (p_vk q) (payload (e_cur e) (o_msg o)) = true.
+Proof. apply signers_signed_from, Inv_st0. Qed.
 
 (* what a stored row claims as won indexes was won by the key of its party (stake of the slot) *)
 Lemma verify_indexes lot r m x i :
@@ -419,4 +463,47 @@ Proof.
   exists q. split; [exact Hq|]. rewrite Hp. f_equal. symmetry. apply Hk; auto.
   - apply find_party_spec in Hq as [Hin _]. exact Hin.
   - eapply nth_error_In; eauto.
+Qed.
+
+(* ---------- the new dimensions: signed entity types, DMQ batches ---------- *)
+(* opening an entity leaves the buffered signatures of every OTHER signed entity type alone *)
+Lemma open_other_types e s ent msg o s' b :
+  step e s (Open ent msg) = (o, s') -> fst b <> ety ent ->
+  (In b (st_buf s') <-> In b (st_buf s)).
+Proof.
+  cbn [step]. destruct (find_open s ent).
+  - intros H _; injection H as <- <-. tauto.
+  - cbn [st_buf]. destruct (handover _ _ _ _ _) as [s2 done]. intros H Hb; injection H as <- <-. cbn [st_buf].
+    rewrite filter_In. split; [tauto|]. intros Hi. split; [exact Hi|].
+    destruct (N.eqb (fst b) (ety ent)) eqn:E; [apply N.eqb_eq in E; contradiction | reflexivity].
+Qed.
+
+(* a buffered signature is only ever replaced by one with the same (type, party id) *)
+Lemma put_buf_other buf ty x b :
+  buf_key ty (s_label x) b = false -> (In b (put_buf buf ty x) <-> In b buf \/ b = (ty, x)).
+Proof.
+  intros Hk. unfold put_buf. rewrite in_app_iff, filter_In. cbn [In]. rewrite Hk. cbn [negb].
+  split; [intros [[H _]|[H|[]]]; auto | intros [H|H]; auto].
+Qed.
+
+(* a DMQ batch changes the state exactly like its signatures sent one by one *)
+Lemma batch_as_subs e l : forall s,
+  snd (batch e s l) = snd (run_from e s (map (fun x => Sub Dmq (fst x) 0 (snd x)) l)).
+Proof.
+  induction l as [|x tl IH]; intros s; cbn [batch map run_from]; [reflexivity|].
+  cbn [step]. destruct (register_buffered e s (fst x) (snd x) true) as [oc s1].
+  specialize (IH s1). destruct (batch e s1 tl) as [b s2].
+  destruct (run_from e s1 _) as [os s3]. cbn [snd] in *. exact IH.
+Qed.
+
+(* ... and reports an import error iff one of them is invalid *)
+Lemma batch_error_iff e l : forall s,
+  fst (batch e s l) = existsb (fun o => obs_eqb o (ON 11))
+                        (fst (run_from e s (map (fun x => Sub Dmq (fst x) 0 (snd x)) l))).
+Proof.
+  induction l as [|x tl IH]; intros s; cbn [batch map run_from]; [reflexivity|].
+  cbn [step]. destruct (register_buffered e s (fst x) (snd x) true) as [oc s1].
+  specialize (IH s1). destruct (batch e s1 tl) as [b s2].
+  destruct (run_from e s1 _) as [os s3]. cbn [fst existsb] in *. rewrite IH.
+  destruct (N.eqb oc INVALID); reflexivity.
 Qed.
